@@ -18,7 +18,7 @@ def design(ctx):
         vlib.tlc_design(ctx, "Lookup", "MC_Lookup_Node5.cfg", timeout=3000)
     for cfg, inv in (("MC_Lookup_DevAskTwice.cfg", "AskedOnce"), ("MC_Lookup_DevSelf.cfg", "NeverSelf"),
                      ("MC_Lookup_DevAlpha.cfg", "AlphaBound"), ("MC_Lookup_DevSeen.cfg", "Distinct"),
-                     ("MC_Lookup_DevDrain.cfg", "Temporal property Terminates was violated.")):
+                     ("MC_Lookup_DevDrain.cfg", "Temporal property Terminates was violated."), ("MC_Lookup_DevGivesUp.cfg", "Drained")):
         vlib.tlc_design(ctx, "Lookup", cfg, timeout=300, expect_violation=inv)
 
 
